@@ -193,6 +193,12 @@ def lib_requests(hexe, todo):
         reqs.append("clilib %s %s %s" % (hx(world_dir(fss)), tool, plan[len("plan "):]))
     if reqs:
         ans, _ = core.run_harness_chunked(hexe, reqs, CASE_SECONDS, chunk=8)
+        # a library call that ran out of time on a loaded machine is asked again, alone and with a
+        # generous limit: only a real hang stays a timeout
+        slow = [i for i, a in enumerate(ans) if a == "timeout" or a == "not-run-after-timeouts"]
+        for i in slow:
+            a2, _ = core.run_harness(hexe, [reqs[i]], CASE_SECONDS * 8)
+            ans[i] = a2[0]
         for key, i in idx.items():
             _lib_cache[key] = ans[i].replace(" ", "+")
     return ["none" if plan == "plan none" else _lib_cache[(fss, tool, plan)] for fss, tool, plan in todo]
